@@ -6,6 +6,7 @@ import Frp.Props.C01
 import Frp.Lemmas.CodecPool
 import Frp.Gen.CodecFacts
 import Frp.Model.ConnReader
+import Frp.Props.C02Faults
 /-
   C02 — HTTP proxying preserves requests and responses apart from declared rewrites.   (partial)
 
@@ -47,6 +48,11 @@ import Frp.Model.ConnReader
       `codec_frp_own_stream`); recycling at the return of the plugin path or twice breaks it
       (`codec_release_at_return_witness`, `codec_double_release_witness`, `codec_unsafe_breaks`); predicate
       `roundHolds` = every user of a round of simultaneous exchanges gets exactly its own answer.
+
+    * faults in the middle of an exchange and long-lived concurrent exchanges: Frp/Props/C02Faults.lean (same
+      namespace; Frp/Model/HttpAbort.lean, Frp/Model/ConnLimit.lean, Gen/HttpFacts): `abort_chain_faithful`,
+      `upload_chain_faithful`, `abort_source_no_recover`, `limit_unlimited_forwards_all`,
+      `limit_kth_concurrent_forwarded`, `limit_source_paths_forward`, predicates `abortHolds`, `longHolds`.
 
   What FAILS on the code as it is (witnesses, reproduced on the real code by engine `http`)
     * `pool_stale_owner_witness`: idle backend connections survive `UnRegister`, a route
